@@ -53,7 +53,7 @@ def build_many(flavours):
 
 
 # ---------------------------------------------------------------------------------- TLC model checking
-def tlc_mc(module, cfg=None, workers=4, timeout=1500, extra=(), env=None, simulate=None):
+def tlc_mc(module, cfg=None, workers=3, timeout=1500, extra=(), env=None, simulate=None):
     """Run TLC on spec/<module>.tla with spec/<cfg>.cfg.  Returns dict(ok, states, distinct, out, coverage)."""
     cfg = cfg or module
     md = '%s/tlc/mc_%s_%d' % (BUILD, cfg, os.getpid())
@@ -274,6 +274,18 @@ class Check:
         self._distinct = set()
 
     # -- model checking part
+    def mc_bg(self, module, cfg=None, **kw):
+        """start a model-checking run in the background; joined (and judged) by finish()"""
+        if not hasattr(self, '_bg'):
+            self._bg = []
+            self._ex = cf.ThreadPoolExecutor(max_workers=6)
+        self._bg.append(self._ex.submit(self.mc, module, cfg, **kw))
+
+    def join_bg(self):
+        for f in getattr(self, '_bg', []):
+            f.result()
+        self._bg = []
+
     def mc(self, module, cfg=None, must_fail=False, actions=None, disabled=(), **kw):
         r = tlc_mc(module, cfg, **kw)
         entry = {'model': cfg or module, 'distinct_states': r.get('distinct'), 'generated': r.get('generated'),
@@ -300,7 +312,9 @@ class Check:
     def tv(self, plan, flavour, name, key_fn=None, **kw):
         if flavour not in self.cov['flavours']:
             self.cov['flavours'].append(flavour)
+        t_tv = time.time()
         results = run_plan(plan, flavour, '%s_%s' % (self.pid, name), **kw)
+        self.cov.setdefault('tv_runs', []).append({'name': name, 'flavour': flavour, 'shards': len(results), 'cases': len(plan.cases), 'wall_s': round(time.time() - t_tv, 1)})
         for r in results:
             if r['status'] == 'infra':
                 raise Infra(r.get('detail', 'infra'))
@@ -360,6 +374,7 @@ class Check:
         self.violations.append((key, detail, replay))
 
     def finish(self):
+        self.join_bg()
         wall = time.time() - self.t0
         c = self.cov
         c['distinct_nontrivial'] = max(c.get('distinct_nontrivial', 0), len(self._distinct))
